@@ -619,8 +619,19 @@ type reverseSegmentScanner struct {
 // newReverseSegmentScanner creates a scanner that iterates from the given
 // offset backwards.
 func newReverseSegmentScanner(segment *segment, startOffset int64) *reverseSegmentScanner {
-	// Convert log offset to index entry offset
-	entryOffset := startOffset - segment.BaseOffset
+	// Convert log offset to index entry offset. Offsets in a segment are not
+	// necessarily contiguous (e.g. after compaction), so search the index for
+	// the last entry whose offset is less than or equal to the start offset.
+	var (
+		e = &entry{}
+		n = int(segment.Index.CountEntries())
+	)
+	entryOffset := int64(sort.Search(n, func(i int) bool {
+		if err := segment.Index.ReadEntryAtLogOffset(e, int64(i)); err != nil {
+			return true
+		}
+		return e.Offset > startOffset
+	})) - 1
 	return &reverseSegmentScanner{
 		s:   segment,
 		ris: newReverseIndexScanner(segment.Index, entryOffset),
